@@ -210,6 +210,114 @@ func genSmtFacts() (string, error) {
 	}
 	fmt.Fprintf(&b, "/-- `VerifyProof` calls `validNodeKey` on every proof node and no longer rebuilds a throw-away tree -/\ndef verifyProofValidatesKeys : Bool := %v\n", validates)
 	fmt.Fprintf(&b, "def rootWritesPrefix : Bytes := %s\ndef readOnlyReadsPrefix : Bytes := %s\n", g.BytesLit(prefixes[w]), g.BytesLit(prefixes[r]))
+	// node cache discipline of setNode / getNode / delNode (C08: cache coherence)
+	maxCache, ok := ints["MaxCacheSize"]
+	if !ok {
+		return "", fmt.Errorf("store/smt.go: constant MaxCacheSize not found")
+	}
+	norm := func(e ast.Expr) string { return strings.ReplaceAll(g.ExprText(e), " ", "") }
+	isCacheIndex := func(e ast.Expr) bool {
+		ix, ok := e.(*ast.IndexExpr)
+		return ok && norm(ix.X) == "s.nodeCache"
+	}
+	// cacheWrite classifies where `s.nodeCache[…] = …` happens in a function: "always" (a top-level statement),
+	// "below" (inside `if len(s.nodeCache) < MaxCacheSize {…}` without else), "" (absent), or an error for any other shape
+	cacheWrite := func(fd *ast.FuncDecl) (string, int, error) {
+		found, at := "", -1
+		for i, st := range fd.Body.List {
+			switch x := st.(type) {
+			case *ast.AssignStmt:
+				if len(x.Lhs) == 1 && isCacheIndex(x.Lhs[0]) {
+					found, at = "always", i
+				}
+			case *ast.IfStmt:
+				writes := false
+				ast.Inspect(x, func(n ast.Node) bool {
+					if as, ok := n.(*ast.AssignStmt); ok && len(as.Lhs) == 1 && isCacheIndex(as.Lhs[0]) {
+						writes = true
+					}
+					return true
+				})
+				if writes {
+					if norm(x.Cond) != "len(s.nodeCache)<MaxCacheSize" || x.Else != nil {
+						return "", 0, fmt.Errorf("%s: cache write under an unrecognised condition `%s`", fd.Name.Name, g.ExprText(x.Cond))
+					}
+					found, at = "below", i
+				}
+			}
+		}
+		return found, at, nil
+	}
+	setFd, getFd, delFd := smtFindFunc(smt, "SMT", "setNode"), smtFindFunc(smt, "SMT", "getNode"), smtFindFunc(smt, "SMT", "delNode")
+	if setFd == nil || getFd == nil || delFd == nil {
+		return "", fmt.Errorf("store/smt.go: setNode/getNode/delNode not found")
+	}
+	setW, setAt, err := cacheWrite(setFd)
+	if err != nil {
+		return "", err
+	}
+	if setW == "" {
+		return "", fmt.Errorf("setNode: no write to s.nodeCache found")
+	}
+	// the drop: `if len(s.nodeCache) >= MaxCacheSize { s.nodeCache = make(…) }` before the write
+	drops := false
+	for i, st := range setFd.Body.List {
+		if ifs, ok := st.(*ast.IfStmt); ok && norm(ifs.Cond) == "len(s.nodeCache)>=MaxCacheSize" && i < setAt {
+			for _, b2 := range ifs.Body.List {
+				if as, ok := b2.(*ast.AssignStmt); ok && len(as.Lhs) == 1 && norm(as.Lhs[0]) == "s.nodeCache" {
+					drops = true
+				}
+			}
+		}
+	}
+	getW, _, err := cacheWrite(getFd)
+	if err != nil {
+		return "", err
+	}
+	evicts := false
+	for _, st := range delFd.Body.List {
+		if es, ok := st.(*ast.ExprStmt); ok {
+			if call, ok := es.X.(*ast.CallExpr); ok && norm(call.Fun) == "delete" && len(call.Args) == 2 && norm(call.Args[0]) == "s.nodeCache" {
+				evicts = true
+			}
+		}
+	}
+	// who else touches individual cache entries? (whole-cache resets `x.nodeCache = make(…)` are harmless drops)
+	var writers []string
+	for _, d := range smt.Decls {
+		fd, ok := d.(*ast.FuncDecl)
+		if !ok || fd.Body == nil {
+			continue
+		}
+		touches := false
+		ast.Inspect(fd.Body, func(n ast.Node) bool {
+			switch x := n.(type) {
+			case *ast.AssignStmt:
+				for _, l := range x.Lhs {
+					if ix, ok := l.(*ast.IndexExpr); ok && strings.HasSuffix(norm(ix.X), ".nodeCache") {
+						touches = true
+					}
+				}
+			case *ast.CallExpr:
+				if norm(x.Fun) == "delete" && len(x.Args) == 2 && strings.HasSuffix(norm(x.Args[0]), ".nodeCache") {
+					touches = true
+				}
+			}
+			return true
+		})
+		if touches {
+			writers = append(writers, fd.Name.Name)
+		}
+	}
+	sort.Strings(writers)
+	fmt.Fprintf(&b, "/-- functions of store/smt.go that write or delete individual node-cache entries: %s -/\ndef nodeCacheEntriesTouchedOnlyByGetSetDel : Bool := %v\n",
+		strings.Join(writers, ", "), strings.Join(writers, ",") == "delNode,getNode,setNode")
+	fmt.Fprintf(&b, "/-- node cache (setNode / getNode / delNode) -/\ndef maxCacheSize : Nat := %d\n", maxCache)
+	fmt.Fprintf(&b, "/-- setNode: `if len(s.nodeCache) >= MaxCacheSize { s.nodeCache = make(…) }` before the cache write -/\ndef setNodeDropsAtCapacity : Bool := %v\n", drops)
+	fmt.Fprintf(&b, "/-- setNode: `s.nodeCache[key] = n` is an unconditional statement of the function body -/\ndef setNodeWritesCacheAlways : Bool := %v\n", setW == "always")
+	fmt.Fprintf(&b, "/-- setNode: the cache write is under `if len(s.nodeCache) < MaxCacheSize` -/\ndef setNodeWritesCacheBelowCapacity : Bool := %v\n", setW == "below")
+	fmt.Fprintf(&b, "/-- getNode: a node read from the store is cached unconditionally / only under `len(s.nodeCache) < MaxCacheSize` -/\ndef getNodeAdmitsAlways : Bool := %v\ndef getNodeAdmitsBelowCapacity : Bool := %v\n", getW == "always", getW == "below")
+	fmt.Fprintf(&b, "/-- delNode: `delete(s.nodeCache, key)` is an unconditional statement of the function body -/\ndef delNodeEvicts : Bool := %v\n", evicts)
 	b.WriteString("\nend Canopy.Gen.SmtFacts\n")
 	return b.String(), nil
 }
